@@ -181,6 +181,19 @@ def _fraction_value_part(task):
                     if not ok:
                         part.violation(sig + ":str then CreateFromString(consider_locale=%r)" % consider_locale, {"text": s, "parsed": repr(r[1])},
                                        pre + "v = FractionValue(%r, (%r, %r))\np = FractionValue.CreateFromString(str(v), %r)\nprint(str(v), repr(p)); assert p == v\n" % (n, num, den, consider_locale))
+                # what a parse returned belongs to the caller: edit its fraction in place and parse again
+                if den in (1, 2) and num in (0, 1):
+                    for consider_locale in (True, False):
+                        part.count("evaluations")
+                        first = FractionValue.CreateFromString(str(fv), consider_locale)
+                        first.fraction.numerator = 3
+                        first.fraction.denominator = 4
+                        first.number = 40
+                        second = FractionValue.CreateFromString(str(fv), consider_locale)
+                        plain = FractionValue.CreateFromString("7", consider_locale)
+                        if not (second == fv) or float(plain) != 7.0 or float(FractionValue(7)) != 7.0 or float(FractionValue.CreateFromFloat(7.0)) != 7.0:
+                            part.violation(sig + ":a parsed value edited by the caller changes what is parsed / created afterwards", {"second": repr(second), "plain 7": repr(plain)},
+                                           pre + "a = FractionValue.CreateFromString('5')\na.fraction.numerator = 3; a.fraction.denominator = 4\nb = FractionValue.CreateFromString('7')\nprint(repr(b), float(b)); assert float(b) == 7.0\n")
                 if num != 0:
                     part.add("nontrivial", (n, num, den))
                 part.add("outcomes", ("fv", float(want) < 0, num == 0))
@@ -227,6 +240,18 @@ def _from_float_task(task):
         if float(fv.GetFraction()) != 0.0:
             part.count("nontrivial")
 
+    if kind == "contexts":
+        # the caller's decimal context is process state the library must not depend on
+        import decimal
+
+        for prec, rounding in ((4, decimal.ROUND_HALF_EVEN), (6, decimal.ROUND_UP), (9, decimal.ROUND_DOWN), (3, decimal.ROUND_CEILING)):
+            with decimal.localcontext() as c:
+                c.prec = prec
+                c.rounding = rounding
+                seen.clear()
+                for x in (3.1415926, 1234.5678, 0.375, -0.375, 99999.5, 12.0625, 8e-05, 1.1e-05, 0.123456789, 5.1, 1e-07 + 1.0, 250.015625):
+                    check(x, "decimal context prec=%d %s" % (prec, rounding))
+        return part
     if kind == "decimal":
         for n in range(lo, hi):
             for k in range(kmax + 1):
@@ -381,6 +406,7 @@ def run(ctx):
     step = nmax // 32 + 1
     tasks += [("ff", ("decimal", lo, min(lo + step, nmax + 1), kmax)) for lo in range(0, nmax + 1, step)]
     tasks += [("ff", ("pq", 2, 129 if ctx.thorough else 65, 0))]
+    tasks += [("ff", ("contexts", 0, 0, 0))]
     with worlds.world("posc") as db:
         qts = sorted(db.GetQuantityTypes(), key=lambda q: -len(db.GetUnits(q)))
     tasks += [("fs", (qts[i::48], ctx.thorough)) for i in range(48)]
